@@ -189,6 +189,15 @@ class C13(SimCheck):
                 rows.append(row)
         if "prestart" in scn:
             scn["prestart"] = rows
+        # the same for what an external controller asks of x between two steps
+        rows = []
+        for row in scn.get("between", []):
+            if row["n"] == scn["x"]:
+                row = dict(row, reqs=[q for q in row["reqs"] if q[0] not in ("send", "broadcast")])
+            if row["reqs"]:
+                rows.append(row)
+        if "between" in scn:
+            scn["between"] = rows
         return scn
 
     p_crowd = 0.12
@@ -241,6 +250,8 @@ class C13(SimCheck):
         a = copy.deepcopy(case)
         if "prestart" in a:
             a["prestart"] = [row for row in a["prestart"] if row["n"] != x]
+        if "between" in a:
+            a["between"] = [row for row in a["between"] if row["n"] != x]
         if case.get("frozen"):
             beh_a = None
         else:
